@@ -119,7 +119,7 @@ PROPS['C05'] = dict(
     domains=['unm', 'hparse', 'build'],
     n=dict(quick=dict(unm=2500, hparse=1500, build=1000), thorough=dict(unm=100000, hparse=50000, build=40000)),
     theorems=[('Properties.C05', [])],
-    kinds={'panic', 'hang', 'no-progress'},
+    kinds={'panic', 'hang', 'no-progress', 'memory', 'crash'},
     rule='TODO', level_text='TODO', level_note='TODO',
 )
 
